@@ -35,13 +35,76 @@ func gList(ns []gt.Node) []string {
 	return out
 }
 
+// gDecls lists what 10.5 declaration binding instantiation will see for a
+// function body or program, in source order: function declarations and var
+// statements of this scope (nested functions have their own list). The parser
+// hands the same list to the runtime (DeclarationList), which hoists from it.
+func gDecls(body []gt.Node) string {
+	var out []string
+	var walk func(n gt.Node)
+	walkAll := func(ns []gt.Node) {
+		for _, n := range ns {
+			walk(n)
+		}
+	}
+	walk = func(n gt.Node) {
+		switch x := n.(type) {
+		case *gt.Func:
+			if x.Decl {
+				out = append(out, "fn:"+identValue(x.Name))
+			}
+		case *gt.Var:
+			names := make([]string, len(x.Decls))
+			for i, d := range x.Decls {
+				names[i] = identValue(d.Name)
+			}
+			out = append(out, "var:"+strings.Join(names, ","))
+		case *gt.Block:
+			if x != nil {
+				walkAll(x.Body)
+			}
+		case *gt.If:
+			walk(x.Then)
+			walk(x.Else)
+		case *gt.For:
+			walk(x.Init)
+			walk(x.Body)
+		case *gt.ForIn:
+			if x.Decl {
+				if id, ok := x.Left.(*gt.Ident); ok {
+					out = append(out, "var:"+identValue(id.Name))
+				}
+			}
+			walk(x.Body)
+		case *gt.While:
+			walk(x.Body)
+		case *gt.DoWhile:
+			walk(x.Body)
+		case *gt.With:
+			walk(x.Body)
+		case *gt.Switch:
+			for _, c := range x.Cases {
+				walkAll(c.Body)
+			}
+		case *gt.Labeled:
+			walk(x.Body)
+		case *gt.Try:
+			walk(x.Block)
+			walk(x.Catch)
+			walk(x.Finally)
+		}
+	}
+	walkAll(body)
+	return list("decls", out...)
+}
+
 // G dumps a generating tree.
 func G(n gt.Node) string {
 	switch x := n.(type) {
 	case nil:
 		return "nil"
 	case *gt.Program:
-		return list("program", gList(x.Body)...)
+		return list("program", append([]string{gDecls(x.Body)}, gList(x.Body)...)...)
 	case *gt.Num:
 		return list("num", ox.Num(x.V))
 	case *gt.Str:
@@ -83,7 +146,7 @@ func G(n gt.Node) string {
 		if x.Decl {
 			head = "fndecl"
 		}
-		return list(head, append([]string{"name:" + x.Name, list("params", x.Params...)}, gList(x.Body)...)...)
+		return list(head, append([]string{"name:" + x.Name, list("params", x.Params...), gDecls(x.Body)}, gList(x.Body)...)...)
 	case *gt.Unary:
 		return list("un", x.Op, G(x.X))
 	case *gt.Update:
@@ -217,7 +280,34 @@ func aFunc(head string, f *ast.FunctionLiteral) string {
 	} else {
 		body = []string{"BODY-NOT-BLOCK:" + A(f.Body)}
 	}
-	return list(head, append([]string{"name:" + name, list("params", params...)}, body...)...)
+	return list(head, append([]string{"name:" + name, list("params", params...), aDecls(f.DeclarationList)}, body...)...)
+}
+
+func aDecls(ds []ast.Declaration) string {
+	var out []string
+	for _, d := range ds {
+		switch x := d.(type) {
+		case *ast.FunctionDeclaration:
+			if x.Function == nil || x.Function.Name == nil {
+				out = append(out, "fn:NIL")
+			} else {
+				out = append(out, "fn:"+x.Function.Name.Name)
+			}
+		case *ast.VariableDeclaration:
+			names := make([]string, len(x.List))
+			for i, v := range x.List {
+				if v == nil {
+					names[i] = "NIL"
+				} else {
+					names[i] = v.Name
+				}
+			}
+			out = append(out, "var:"+strings.Join(names, ","))
+		default:
+			out = append(out, fmt.Sprintf("UNKNOWN-DECLARATION:%T", d))
+		}
+	}
+	return list("decls", out...)
 }
 
 func aVarDecl(e ast.Expression) string {
@@ -252,7 +342,7 @@ func A(n ast.Node) string {
 	}
 	switch x := n.(type) {
 	case *ast.Program:
-		return list("program", aStmts(x.Body)...)
+		return list("program", append([]string{aDecls(x.DeclarationList)}, aStmts(x.Body)...)...)
 	case *ast.NumberLiteral:
 		switch v := x.Value.(type) {
 		case float64:
@@ -320,6 +410,18 @@ func A(n ast.Node) string {
 		}
 		return list("un", op, A(x.Operand))
 	case *ast.BinaryExpression:
+		// the Comparison flag routes evaluation (calculateComparison vs
+		// calculateBinaryExpression); it is a function of the operator
+		switch x.Operator {
+		case token.LESS, token.LESS_OR_EQUAL, token.GREATER, token.GREATER_OR_EQUAL, token.EQUAL, token.NOT_EQUAL, token.STRICT_EQUAL, token.STRICT_NOT_EQUAL:
+			if !x.Comparison {
+				return list("bin", x.Operator.String()+":COMPARISON-FLAG-CLEAR", A(x.Left), A(x.Right))
+			}
+		default:
+			if x.Comparison {
+				return list("bin", x.Operator.String()+":COMPARISON-FLAG-SET", A(x.Left), A(x.Right))
+			}
+		}
 		return list("bin", x.Operator.String(), A(x.Left), A(x.Right))
 	case *ast.AssignExpression:
 		return list("asg", assignOp(x.Operator), A(x.Left), A(x.Right))
